@@ -23,6 +23,28 @@ def programs(ctx):
     return progs
 
 
+# the final part is the always part guarded by &final - for every statement that has a body, not for rules only: each statement below, written in
+# `#program final.`, against the same statement in `#program always.` with `&final` added to its body (answer sets and shown atoms)
+FINAL_BASE = '#program always.\n{ p; q }.\n'
+FINAL_STATEMENTS = [('r :- p.', 'r :- p, &final.'), (':- p, not q.', ':- p, not q, &final.'), ('{ r } :- q.', '{ r } :- q, &final.'), ('r ; s :- not p.', 'r ; s :- not p, &final.'),
+                    ('#show goal : p.', '#show goal : p, &final.'), ('#show goal(q) : q, not p.', '#show goal(q) : q, not p, &final.'), ('r :- \'p.\n#show r/0.', 'r :- \'p, &final.\n#show r/0.'),
+                    ('not r :- p.\n{ r }.', 'not r :- p, &final.\n{ r } :- &final.'), ('#show.\n#show p : p.', '#show.\n#show p : p, &final.'), ('r :- #count { 1 : p ; 2 : q } > 1.', 'r :- #count { 1 : p ; 2 : q } > 1, &final.')]
+
+
+def final_cases(ctx, H):
+    import meta
+    inputs = []
+    for a, b in FINAL_STATEMENTS:
+        inputs += [[FINAL_BASE + '#program final.\n' + a + '\n'], [FINAL_BASE + '#program always.\n' + b + '\n']]
+    res = meta.answer_sets(ctx, inputs, H, timeout=60)
+    cex = []
+    for i, (a, b) in enumerate(FINAL_STATEMENTS):
+        if not meta.same(res[2 * i], res[2 * i + 1]):
+            cex.append({'key': 'c01:final-part:' + a.replace('\n', ' '), 'what': 'a statement in the final part and the same statement in the always part with &final in its body differ: %s' % json.dumps(meta.first_diff(res[2 * i], res[2 * i + 1])),
+                        'input': {'final_statement': [a, b], 'H': H, 'program': inputs[2 * i][0]}})
+    return cex, len(inputs)
+
+
 def run(ctx):
     H = 3 if ctx.quick else 4
     maxbits = 12 if ctx.quick else 13
@@ -43,6 +65,9 @@ def run(ctx):
     rcex, rnon = meta.renaming_cex(ctx, [p for _, p in progs][:40 if ctx.quick else 200], H, 'C01')
     res['counterexamples'] += rcex
     res['coverage']['renamed_programs_with_answer_sets'] = rnon
+    fcex, fn = final_cases(ctx, 3)
+    res['counterexamples'] += fcex
+    res['coverage']['evaluations'] += fn
     res['coverage']['evaluations'] += len(srecs)
     res['coverage']['transform_structure_status'] = sstat
     res['coverage']['rule'] += '; structure: the rewritten statements of transformers.transform for the %d programs inside the fragment of Model/CoreRun.v compared rule by rule (part, head, signed body literals with time terms, trailer) with the extracted model' % len(srecs)
@@ -89,6 +114,13 @@ def replay(ctx, payload):
     if 'renaming' in inp:
         import meta
         return meta.renaming_replay(ctx, payload)
+    if 'final_statement' in inp:
+        global FINAL_STATEMENTS
+        keep, FINAL_STATEMENTS = FINAL_STATEMENTS, [tuple(inp['final_statement'])]
+        try:
+            return bool(final_cases(ctx, inp.get('H', 3))[0])
+        finally:
+            FINAL_STATEMENTS = keep
     if 'transform_rules' in inp:
         return trstruct.compare(ctx, [inp['transform_rules']])[0]['status'] != 'agree'
     r = s4.compare(ctx, [inp['rules']], inp.get('H', 3), inp.get('maxbits', 12), default_config=bool(inp.get('default_config')))[0]
